@@ -21,7 +21,14 @@ bool ops_c14(Ctx &c, Toks const &t)
     return true;
   }
   if (t[0] == "x.truncate") {    // x.truncate <path> <nbytes>: cut a file (a peer's partially written file)
-    if (truncate(t[1].c_str(), (off_t) i_of(t[2])) != 0) c.out("trunc", itok(-1)); else c.out("trunc", itok(0));
+    long long n = i_of(t[2]);
+    if (n < 0) {                 // relative to the end of the file
+      struct stat st;
+      if (stat(t[1].c_str(), &st) != 0) { c.out("trunc", itok(-1)); return true; }
+      n = (long long) st.st_size + n;
+      if (n < 0) n = 0;
+    }
+    if (truncate(t[1].c_str(), (off_t) n) != 0) c.out("trunc", itok(-1)); else c.out("trunc", itok(n));
     return true;
   }
   if (t[0] == "x.size") {
